@@ -447,11 +447,48 @@ func init() {
 		return math.Inf(int(fr.concreteInt(args[0], "sign")))
 	}
 	externals["math.NaN"] = func(fr *frame, args []value) value { return math.NaN() }
-	externals["math.Floor"] = func(fr *frame, args []value) value {
-		if f, ok := args[0].(float64); ok {
-			return math.Floor(f)
+	conc1 := func(name string, f func(float64) float64) {
+		externals["math."+name] = func(fr *frame, args []value) value {
+			if x, ok := args[0].(float64); ok {
+				return f(x)
+			}
+			panic(pathAbort{"unsupported", "math." + name + " on a symbolic value"})
 		}
-		panic(pathAbort{"unsupported", "math.Floor on a symbolic value"})
+	}
+	conc1("Floor", math.Floor)
+	conc1("Ceil", math.Ceil)
+	conc1("Sqrt", math.Sqrt)
+	conc1("Log", math.Log)
+	conc1("Exp", math.Exp)
+	externals["math.Ldexp"] = func(fr *frame, args []value) value {
+		if x, ok := args[0].(float64); ok {
+			return math.Ldexp(x, int(fr.concreteInt(args[1], "exp")))
+		}
+		panic(pathAbort{"unsupported", "math.Ldexp on a symbolic value"})
+	}
+	externals["math.Pow"] = func(fr *frame, args []value) value {
+		x, ok1 := args[0].(float64)
+		y, ok2 := args[1].(float64)
+		if ok1 && ok2 {
+			return math.Pow(x, y)
+		}
+		panic(pathAbort{"unsupported", "math.Pow on a symbolic value"})
+	}
+	externals["math.Float64bits"] = func(fr *frame, args []value) value {
+		if x, ok := args[0].(float64); ok {
+			return math.Float64bits(x)
+		}
+		panic(pathAbort{"unsupported", "math.Float64bits on a symbolic value"})
+	}
+	externals["math.Float64frombits"] = func(fr *frame, args []value) value {
+		a, _, _ := scalarTerm(args[0])
+		return mkScalar(FpFromBits(a, SF64), types.Float64)
+	}
+	externals["math.Signbit"] = func(fr *frame, args []value) value {
+		if x, ok := args[0].(float64); ok {
+			return math.Signbit(x)
+		}
+		panic(pathAbort{"unsupported", "math.Signbit on a symbolic value"})
 	}
 }
 
